@@ -67,6 +67,32 @@ def constructor_args(I, cls, name, arity=None):
     return [ct.make_child(I, f"{name}._inner")]
 
 
+def arbitrary_history(I, o):
+    """An object that has been used before: every field that some method other than the
+    constructor assigns (and that is not one of the documented memo fields, which the families
+    set up themselves) holds an arbitrary leftover value."""
+    import ast as _ast
+    from .frames import MEMO_FIELDS
+    from .loader import ClassInfo
+    if not isinstance(o.cls, ClassInfo):
+        return
+    cache = I.prog.__dict__.setdefault("_mutable_fields", {})
+    if o.cls.name not in cache:
+        names = set()
+        for c in o.cls.mro:
+            for m, fd in c.methods.items():
+                if m == "__init__":
+                    continue
+                for n in _ast.walk(fd.node):
+                    if isinstance(n, _ast.Attribute) and isinstance(n.ctx, _ast.Store) and isinstance(n.value, _ast.Name) \
+                            and n.value.id == "self" and n.attr not in MEMO_FIELDS:
+                        names.add(n.attr)
+        cache[o.cls.name] = names
+    for f in cache[o.cls.name]:
+        if f in o.fields:
+            o.fields[f] = Arb(f"{o.name}.{f}")
+
+
 def make_self(I, cls, arity=None, name="self"):
     """An arbitrary existing object of class cls: built by the real constructor from
     arbitrary children / parameters (raising constructor paths are not objects), then its
@@ -77,6 +103,7 @@ def make_self(I, cls, arity=None, name="self"):
     o.fields["_is_fully_reduced"] = z3.Bool(f"fr[{name}]")
     o.fields["_evaluation_failed"] = z3.Bool(f"ef[{name}]")
     set_memo_arbitrary(I, o)
+    arbitrary_history(I, o)
     return o
 
 
